@@ -48,12 +48,12 @@ package graphsync
 //@ func MaxInProgressIncomingRequestsPerPeer.func1
 //@   requires gs != nil
 //@   modifies gs.maxInProgressIncomingRequestsPerPeer
-//@   ensures gs.maxInProgressIncomingRequestsPerPeer == maxInProgressIncomingRequestsPerPeer
+//@   ensures gs.maxInProgressIncomingRequestsPerPeer == old(maxInProgressIncomingRequestsPerPeer)
 //@ func MaxInProgressIncomingRequests.func1
 //@   requires gs != nil
 //@   modifies gs.maxInProgressIncomingRequests
-//@   ensures gs.maxInProgressIncomingRequests == maxInProgressIncomingRequests
+//@   ensures gs.maxInProgressIncomingRequests == old(maxInProgressIncomingRequests)
 //@ func MaxInProgressOutgoingRequests.func1
 //@   requires gs != nil
 //@   modifies gs.maxInProgressOutgoingRequests
-//@   ensures gs.maxInProgressOutgoingRequests == maxInProgressOutgoingRequests
+//@   ensures gs.maxInProgressOutgoingRequests == old(maxInProgressOutgoingRequests)
